@@ -483,8 +483,11 @@ func (pe *probeExec) Apply(inner func(failsafe.Execution[R]) *common.PolicyResul
 			e.Flags |= FIsCanceled
 		}
 		p.w.log.add(e)
+		enter := p.w.log.lastSeq()
 		r := inner(exec)
 		x := Event{Kind: EvProbeExit, Pos: p.pos, A: int64(p.stack), Ref: exec}
+		// at the moment this layer returns: which of the executions handed to the layer inside are cancelled
+		x.Aux = p.w.log.childCanceled(enter, p.pos+1)
 		if r == nil {
 			x.Flags |= FNilResult
 		} else {
